@@ -55,6 +55,31 @@ fn pairs_json(c: &Conc, shapes: &[AShape], v: &[(Shape, dbase::Record)]) -> Valu
         .collect::<Vec<_>>())
 }
 
+/// typed complete reads: Reader::read_as::<S, Record>() on cursors, or shapefile::read_as by path
+fn readback_typed(c: &Conc, shapes: &[AShape], t: i32, shp: &[u8], shx: &[u8], dbf: &[u8], path: Option<&Path>) -> Value {
+    if t == 0 {
+        return json!({"err": "", "pairs": [], "skipped": true});
+    }
+    let r = guarded(|| {
+        crate::for_type!(t, S, {
+            let v: Vec<(S, dbase::Record)> = match path {
+                Some(p) => shapefile::read_as::<_, S, dbase::Record>(p)?,
+                None => {
+                    let sr = ShapeReader::with_shx(Cursor::new(shp.to_vec()), Cursor::new(shx.to_vec()))?;
+                    let dr = dbase::Reader::new(Cursor::new(dbf.to_vec())).map_err(Error::DbaseError)?;
+                    Reader::new(sr, dr).read_as::<S, dbase::Record>()?
+                }
+            };
+            Ok::<Vec<(Shape, dbase::Record)>, Error>(v.into_iter().map(|(s, r)| (Shape::from(s), r)).collect())
+        })
+    });
+    match r {
+        Ok(Ok(all)) => json!({"err": "", "pairs": pairs_json(c, shapes, &all), "skipped": false}),
+        Ok(Err(e)) => json!({"err": err_json(&e)["err"], "pairs": [], "skipped": false}),
+        Err(_) => json!({"err": "panic", "pairs": [], "skipped": false}),
+    }
+}
+
 fn readback_cursor(c: &Conc, shapes: &[AShape], shp: &[u8], shx: &[u8], dbf: &[u8]) -> Value {
     let r = guarded(|| {
         let sr = ShapeReader::with_shx(Cursor::new(shp.to_vec()), Cursor::new(shx.to_vec()))?;
@@ -115,6 +140,7 @@ pub fn run_history(tr: &mut Trace, c: &Conc, r: &mut Rng, t: i32, tx: i32, hist:
     enum W {
         Mem(Writer<LogDest>),
         File(Writer<std::io::BufWriter<std::fs::File>>),
+        Gone,
     }
     let mut w = if by_path {
         crate::cmd_codec::prepopulate(&path);
@@ -129,7 +155,29 @@ pub fn run_history(tr: &mut Trace, c: &Conc, r: &mut Rng, t: i32, tx: i32, hist:
     } else {
         W::Mem(Writer::new(ShapeWriter::with_shx(shp.clone(), shx.clone()), table_builder().build_with_dest(dbf.clone())))
     };
+    let consuming = !hist.is_empty() && hist.chars().all(|ch| ch == 'o') && id % 2 == 0;
+    if consuming {
+        // Writer::write_shapes_and_records consumes the writer: all pairs in one call
+        let rows: Vec<dbase::Record> = (1..=n).map(idx_record).collect();
+        let res = res_str(guarded(|| {
+            crate::for_type!(t, S, {
+                let shapes_s: Vec<S> = built_good.iter().map(|s| S::try_from(clone_shape(s)).ok().unwrap()).collect();
+                let pairs = shapes_s.iter().zip(rows.iter());
+                match std::mem::replace(&mut w, W::Gone) {
+                    W::Mem(w) => w.write_shapes_and_records(pairs),
+                    W::File(w) => w.write_shapes_and_records(pairs),
+                    W::Gone => Ok(()),
+                }
+            })
+        }));
+        for k in 1..=n {
+            tr.emit(json!({"ev": "pair", "k": k, "kind": "o", "t": t, "res": res, "consuming": true}));
+        }
+    }
     for (i, ch) in hist.chars().enumerate() {
+        if consuming {
+            break;
+        }
         let k = i + 1;
         let shape = if ch == 'x' { &built_other[i] } else { &built_good[i] };
         let row = match ch {
@@ -139,6 +187,7 @@ pub fn run_history(tr: &mut Trace, c: &Conc, r: &mut Rng, t: i32, tx: i32, hist:
         let res = res_str(guarded(|| match &mut w {
             W::Mem(w) => with_inner!(shape, s => w.write_shape_and_record(s, &row), Ok(())),
             W::File(w) => with_inner!(shape, s => w.write_shape_and_record(s, &row), Ok(())),
+            W::Gone => Ok(()),
         }));
         tr.emit(json!({"ev": "pair", "k": k, "kind": ch.to_string(), "t": if ch == 'x' { tx } else { t }, "res": res}));
     }
@@ -153,7 +202,10 @@ pub fn run_history(tr: &mut Trace, c: &Conc, r: &mut Rng, t: i32, tx: i32, hist:
         (shp.bytes(), shx.bytes(), dbf.bytes())
     };
     let rb = if by_path { readback_path(c, &shapes, &path) } else { readback_cursor(c, &shapes, &b1, &b2, &b3) };
-    tr.emit(json!({"ev": "cdrop", "shp": jbytes(&b1), "shx": jbytes(&b2), "dbf": jbytes(&b3), "readback": rb}));
+    // the type the file ended up with (the first accepted shape's)
+    let ft = if b1.len() >= 36 { i32::from_le_bytes([b1[32], b1[33], b1[34], b1[35]]) } else { 0 };
+    let typed = readback_typed(c, &shapes, ft, &b1, &b2, &b3, if by_path { Some(&path) } else { None });
+    tr.emit(json!({"ev": "cdrop", "shp": jbytes(&b1), "shx": jbytes(&b2), "dbf": jbytes(&b3), "readback": rb, "typed": typed}));
     if by_path {
         // which of the three files the path constructors require / pick up: every subset present
         let keep: Vec<(&str, Vec<u8>)> = ["shp", "shx", "dbf"].iter().map(|e| (*e, std::fs::read(path.with_extension(e)).unwrap_or_default())).collect();
